@@ -130,6 +130,12 @@ impl WakerList {
         }
     }
 
+    /// Address of the shared header, the identity of this block in verification events.
+    #[cfg(futures_buffered_verif)]
+    pub(crate) fn verif_header(&self) -> usize {
+        self.ptr.as_ptr() as usize
+    }
+
     /// Register the waker
     pub(crate) fn register(&mut self, waker: &Waker) {
         // Safety:
